@@ -219,3 +219,23 @@ Section WithHash.
     unfold alloc in H. inversion H; subst. exact I.
   Qed.
 End WithHash.
+
+(* ------------------------------------------------------------------ *)
+(* Accessors (to_dict, items / keys / values, hashes, unique_key, qualifiers, hash, ==, iteration, len):
+   functions of the abstract content.  Their result is an [rval] - a type that has NO handle
+   constructor: what they hand out cannot be used to write to the store ("fresh values") - and
+   calling them changes nothing, in ANY store (no plainness hypothesis is needed: they take no key). *)
+Definition content_read (r : readkind) : bool :=
+  match r with RdContains _ | RdGet _ | RdGetItem _ => false | _ => true end.
+
+Theorem accessors_pure : forall s v fld r, content_read r = true -> do_read s v fld r = (s, None).
+Proof. intros s v fld r H. destruct r; try discriminate; reflexivity. Qed.
+
+(* the value an accessor returns is determined by the content: two objects with the same content
+   (an object and its twin; the same object before and after the caller has mutated what a previous
+   call returned - the store is the same) return the same value *)
+Theorem accessor_value_function_of_content : forall g s s' x y,
+  resolve g s x = resolve g s' y ->
+  to_dict ALL_CLASSES (resolve g s x) = to_dict ALL_CLASSES (resolve g s' y) /\
+  norm ALL_CLASSES (resolve g s x) = norm ALL_CLASSES (resolve g s' y).
+Proof. intros g s s' x y E. rewrite E. split; reflexivity. Qed.
